@@ -38,6 +38,22 @@ fn main() {
         t
     });
 
+    // S1b precision sweep: every p in 1..=150 on a small radicand set (the property's stated precision range)
+    let pmax_sweep: u64 = tier.pick(60, 150);
+    let nsweep: usize = tier.pick(120, 400);
+    run.bound("S1b_precisions", format!("9..={}", pmax_sweep));
+    run.bound("S1b_unscaled", format!("1..={} at scales -3, 0, 1, 2", nsweep));
+    let psweep: Vec<u64> = (9..=pmax_sweep).collect();
+    run.par("S1b precision sweep", nsweep, |i| {
+        let mut t = Tally::default();
+        for s in [-3i128, 0, 1, 2] {
+            let x = Dec::new(i as i64 + 1, s);
+            sweep(&run, 3, &x, &psweep, false, &mut t);
+            if i % 3 == 0 { sweep(&run, 3, &x.neg(), &psweep, false, &mut t); }
+        }
+        t
+    });
+
     let pset: Vec<u64> = tier.pick(vec![1, 2, 3, 4, 5, 8, 16], vec![1, 2, 3, 4, 5, 6, 7, 8, 16, 33, 50]);
     run.bound("S2_precisions", json!(pset));
     run.par("S2 perfect cubes, near-cubes, ties", pset.len(), |i| {
